@@ -84,13 +84,19 @@ def history_case(chk, rng, hi):
     others = codes[1:]
     kind = rng.choice(["none", "year", "month", "day"])
     length = rng.randint(1, 25)
+    today_default = rng.random() < 0.12
     steps = [{"id": "stub", "e": ["stub", "d%d" % hi]},
              {"setstub": ["d%d" % hi, ["date", 2021, 3, 4]]},
-             {"id": "mc", "k": "mc", "e": ["c", MCLS, [U(base), V("stub")]]}]
+             {"id": "mc", "k": "mc",
+              "e": ["c", MCLS, [U(base)] + ([] if today_default
+                                            else [V("stub")])]}]
     table = {}          # (period, code) -> (um, ta)
     cur_kind = None
     stub_date = datetime.date(2021, 3, 4)
-    used_periods = []
+    if today_default:
+        # no callable configured: the documented default is date.today
+        stub_date = datetime.date.today()
+    used_periods = [stub_date] if today_default else []
     checks = []         # (key, kind, payload)
     tags = set()
     for i in range(length):
@@ -138,7 +144,7 @@ def history_case(chk, rng, hi):
                 used_periods.append(d)
                 checks.append((key, "accept", None))
                 tags.add("spelling|" + sp)
-        elif r < 0.55:
+        elif r < 0.55 and not today_default:
             stub_date = rng.choice(neighbours(rng.choice(used_periods))) \
                 if used_periods else rand_date(rng)
             steps.append({"setstub": ["d%d" % hi, ["date", stub_date.year,
@@ -150,7 +156,7 @@ def history_case(chk, rng, hi):
                 b = rng.choice([c for c in codes if c != a])
             use_default = rng.random() < 0.3
             drift = use_default and bool(used_periods) and \
-                rng.random() < 0.7
+                rng.random() < 0.7 and not today_default
             for rep in range(2 if drift else 1):
                 if rep == 1:
                     # the default date moves on (no update in between):
@@ -231,6 +237,8 @@ def history_case(chk, rng, hi):
             return
         chk.case(("hist", hi, str(desc)), nontrivial=bool(table))
         chk.count("histories")
+        if today_default:
+            chk.count("histories with the built-in default date (today)")
         for t in tags:
             chk.count(t)
         bad = []
@@ -329,7 +337,8 @@ def run(chk, R, tier, seed):
               "spelling|None", "spelling|int", "spelling|year-str",
               "spelling|tuple", "spelling|month-str", "spelling|date",
               "spelling|date-str",
-              "dateless lookup repeated after the default date moved"):
+              "dateless lookup repeated after the default date moved",
+              "histories with the built-in default date (today)"):
         chk.require(c)
     prelude = [{"e": M(MONEY, "register_currency", ["s", c])} for c in CODES]
     n = 3000 if tier == "quick" else 40000
